@@ -17,6 +17,23 @@ REPO = os.environ.get("VERIF_REPO", "/repo")
 VX = os.path.join(VERIF, "build", "vx", "release", "vx")
 
 
+AUTO_STD_DECLS = """pub uninterp spec fn vxstd_str1(f: int, a: Seq<char>) -> Seq<char>;
+pub uninterp spec fn vxstd_str_rel(f: int, a: Seq<char>, b: Seq<char>) -> bool;
+pub uninterp spec fn vxstd_int1(f: int, bits: int, x: int) -> int;
+"""
+AUTO_STD_SPECS = [
+    ("str::eq_ignore_ascii_case", "(a: &str, b: &str) -> (r: bool)", "r == vxstd_str_rel(1, a@, b@)"),
+    ("str::to_lowercase", "(a: &str) -> (r: String)", "r@ == vxstd_str1(1, a@)"),
+    ("str::to_uppercase", "(a: &str) -> (r: String)", "r@ == vxstd_str1(2, a@)"),
+    ("str::to_ascii_lowercase", "(a: &str) -> (r: String)", "r@ == vxstd_str1(3, a@)"),
+    ("str::to_ascii_uppercase", "(a: &str) -> (r: String)", "r@ == vxstd_str1(4, a@)"),
+    ("str::trim", "(a: &str) -> (r: &str)", "r@ == vxstd_str1(5, a@)"),
+    ("str::trim_start", "(a: &str) -> (r: &str)", "r@ == vxstd_str1(6, a@)"),
+    ("str::trim_end", "(a: &str) -> (r: &str)", "r@ == vxstd_str1(7, a@)"),
+] + [("%s::%s" % (t, f), "(x: %s) -> (r: %s)" % (t, t), "r as int == vxstd_int1(%d, %d, x as int)" % (k, bits))
+     for (t, bits) in (("u16", 16), ("u32", 32), ("u64", 64)) for (k, f) in enumerate(("to_be", "from_be", "to_le", "from_le", "swap_bytes"), 1)]
+
+
 class Undecided(Exception):
     """The machinery cannot apply (lost anchor, missing item, unsupported construct).
     Never reported as a violation."""
@@ -1030,6 +1047,15 @@ class Unit:
         if "std::io::_eprint]" in body:
             std_print = ""
         body = body + std_print
+        # std functions that edits are likely to introduce: NAMED by uninterpreted spec functions (nothing can be proved from
+        # them except congruence), added only where the unit does not specify the function itself. With them an edited body is
+        # decided on its merits (a clause that would need the function's meaning fails) instead of being UNDECIDED.
+        auto = []
+        for (path, sig, ens) in AUTO_STD_SPECS:
+            if not re.search(r"assume_specification\s*(<[^\[]*>)?\s*\[\s*%s\s*\]" % re.escape(path), body):
+                auto.append("pub assume_specification [%s] %s\n    ensures %s;" % (path, sig, ens))
+        if auto:
+            body = body + "\n// ---- std functions named by uninterpreted spec functions (all units, only where not specified by the unit) ----\n" + AUTO_STD_DECLS + "\n".join(auto) + "\n"
         feats = "".join("#![feature(%s)]\n" % f for f in self.features)
         prefix = "\n".join(hdr) + "\n" + feats + "#![allow(unused_imports, unused_variables, dead_code, unused_mut, non_snake_case, unused_assignments, unreachable_code, unused_parens, non_camel_case_types, non_upper_case_globals)]\n" + \
             "use vstd::prelude::*;\n" + header_extra
